@@ -206,6 +206,8 @@ int KSI_AsyncSigningHandle_new(KSI_CTX *ctx, KSI_DataHash *rootHash, KSI_uint64_
 
 	res = KSI_OK;
 cleanup:
+	/* The root hash belongs to the caller until the handle is handed out. */
+	if (req != NULL) KSI_AggregationReq_setRequestHash(req, NULL);
 	KSI_AggregationReq_free(req);
 	KSI_Integer_free(reqLvl);
 	KSI_AsyncHandle_free(tmp);
